@@ -302,7 +302,7 @@ let obs_of (impl : string list) : obs option = match impl with
   | ["abort"] -> Some OAbort | ["timeout"] -> Some OTimeout | _ -> None
 let verdict_str cbor_out input impl = match obs_of impl with
   | None -> (match impl with ["swept"] -> "holds" | _ -> "na")
-  | Some o -> (match judge cbor_out input o with Holds -> "holds" | Fails -> "fails:-" | FailsKnownHuge -> "fails:C02-huge-declared-length")
+  | Some o -> (match judge cbor_out input o with Holds -> "holds" | Fails -> "fails:-" | FailsKnownHuge -> "fails:C02-huge-declared-length" | FailsKnownPreserved -> "fails:C02-illformed-input-preserved")
 
 let strip_label (toks : string list) (n : int) : string list =
   (* the first n tokens are the case proper; a trailing label is ignored *)
